@@ -35,7 +35,7 @@ RULE = ("a real Node stores payloads of 0, 1, 63, 64, 65, 127, 128, 129, 1000 an
         "the held bytes are ChaCha20(key reconstructed from the manifest's shares, nonce, counter = first four id bytes LE) "
         "of the payload; local fetch, replica import and CLI decryption of the untouched replica return the payload; a "
         "replica whose decryption does not hash to the manifest hash is refused by both, is not stored and not returned by "
-        "the receiver's lookup. non-trivial = a corrupted replica; distinct = distinct outputs")
+        "the receiver's lookup. In a third of the cases the same chunk id is then stored a second time (new payload, key, nonce, shares with the same indices) and read back locally and through a second replica import on the node that holds the first. non-trivial = a corrupted replica or a second store; distinct = distinct outputs")
 ASSUMPTIONS = ["std::random_device is an input; mt19937_64 + uniform_int_distribution<uint32_t>(0,255) for the nonce is predicted in "
                "python (top byte of each 64-bit draw)",
                "CryptoManager replaces an all-zero key by a random one: not modelled (a reconstructed all-zero key has probability 2^-256)",
@@ -135,7 +135,18 @@ def generate(rng, tier):
             elif kind == 8:
                 pos, val = 0, rng.choice([1, 64])
         ints = cid + [t, tot] + lp(data) + key + list(nonce_from_seed(seed)) + lp(rnd) + [kind, pos, val, seed]
-        cases.append({"ints": ints, "tag": "plain" if kind == 0 else f"tamper-{kind}"})
+        tag = "plain" if kind == 0 else f"tamper-{kind}"
+        if rng.random() < 0.35 and ne <= 255:
+            # the same chunk id is stored a second time (same shard configuration, so the share indices repeat)
+            data2 = bytes(rng.randrange(256) for _ in range(rng.choice([size, size, 0, 70, rng.randrange(0, 300)])))
+            key2 = [rng.randrange(256) for _ in range(32)]
+            seed2 = rng.randrange(2 ** 32)
+            rnd2 = [rng.randrange(256) for _ in range(32 * (te - 1))]
+            ints += [1] + lp(data2) + key2 + list(nonce_from_seed(seed2)) + lp(rnd2) + [seed2]
+            tag += "+restore"
+        else:
+            ints += [0]
+        cases.append({"ints": ints, "tag": tag})
     return cases
 
 
@@ -150,6 +161,11 @@ def judge(case, impl, model):
     nonce = bytes(ints[p:p + 12]); p += 12
     n = ints[p]; p += 1 + n
     kind, pos, val = ints[p:p + 3]
+    again = ints[p + 4] == 1
+    data2 = None
+    if again:
+        p2 = p + 5
+        n2 = ints[p2]; data2 = bytes(ints[p2 + 1:p2 + 1 + n2])
     te = max(1, t); ne = max(te, tot)
     if impl[:1] == [-1000]:
         # store itself threw: legitimate only for share counts the field cannot carry
@@ -174,6 +190,10 @@ def judge(case, impl, model):
         local = ropt(); recv = ropt()
         stored = impl[q]; q += 1
         bfetch = ropt(); cli = ropt()
+        second = None
+        if again:
+            hl = impl[q]; held2 = bytes(impl[q + 1:q + 1 + hl]); q += 1 + hl
+            second = (held2, ropt(), ropt(), ropt())
     except Exception:
         return {"fail": "C11|output-shape"}
     counter = int.from_bytes(cid[:4], "little")
@@ -186,7 +206,13 @@ def judge(case, impl, model):
         return {"fail": "C11|held-bytes-are-not-the-encryption-under-the-key-the-shares-reconstruct"}
     if local != data:
         return {"fail": "C11|local-lookup-does-not-return-the-payload"}
-    res = {"nontrivial": kind != 0}
+    if second is not None:
+        held2, local2, recv2, bfetch2 = second
+        if local2 != data2:
+            return {"fail": "C11|local-lookup-after-second-store-does-not-return-the-new-payload", "nontrivial": True}
+        if recv2 != data2 or bfetch2 != data2:
+            return {"fail": "C11|replica-import-after-second-store-does-not-return-the-new-payload", "nontrivial": True}
+    res = {"nontrivial": kind != 0 or again}
     if kind == 0:
         if recv != data or cli != data or bfetch != data or stored != 1:
             res["fail"] = "C11|untouched-replica-not-recovered"
